@@ -39,6 +39,8 @@ DEFAULTS = [
     (paren(T("now()")), "now()"), (paren(T("NULL")), "NULL"), (paren(T("-1")), "-1"), (paren(T("1.5")), "1.5"), (T("+5"), "+5"),
     (paren(T("getdate()")), "getdate()"),
     (L("'$$'"), "'$$'"), (L("'paid in $$'"), "'paid in $$'"),
+    # a ';' inside the literal, followed by a blank / several words (no statement ends there, whatever the line layout)
+    (L("'n/a; none'"), "'n/a; none'"), (L("'/bin;/usr/bin and more'"), "'/bin;/usr/bin and more'"),
 ] + [(T(d), d) for d in DECIMALS] + [(paren(T(d)), d) for d in DECIMALS[:4]] + [(T(d), d) for d in CAST_DEFAULTS]
 
 ACTIONS = [None, "CASCADE", "RESTRICT", "cascade", "Restrict"]
